@@ -26,7 +26,7 @@ pub fn run(ctx: &mut Ctx) {
     let hash_len = gen::gen_hash_length();
     let metadata = gen::gen_metadata();
     let max_len = if big { 3 << 20 } else { 48 * 1024 };
-    let max_len = if comp.expensive() { max_len.min(cfg.expected_avg().saturating_mul(16).max(64)) } else { max_len };
+    let max_len = gen::len_cap(comp, &cfg, max_len);
     let (sspec, data) = gen::gen_source(&cfg, max_len);
     let enc = encode(&data, &cfg, comp, hash_len, &metadata);
     let desc = json!({"encoding": enc.desc, "source": sspec.json()});
